@@ -39,6 +39,12 @@ type Spec struct {
 	// code paths in the process (first-use initialisation met concurrently).
 	// Set by the worker for the first run of a process.
 	ColdStart bool `json:"cold_start,omitempty"`
+	// ClockShiftSec (clock runs of the auto-yield worker only, whose copy of
+	// the library reads the clock through a seam of ours): the library's
+	// clock is the simulated clock plus this many seconds, which takes the
+	// wall clock of the run beyond 2262-04-11, the last instant that fits
+	// into 64-bit nanoseconds (testing/synctest itself cannot go there).
+	ClockShiftSec int64 `json:"clock_shift_s,omitempty"`
 }
 
 // StratSpec names the scheduling strategy of a generated run.
